@@ -1361,10 +1361,17 @@ Section Full.
 
   Definition len_attr (isroot : bool) (a : attrs) : attrs :=
     if skip_len isroot then []
-    else match attr_get len a with Some (VInt (Zpos p)) => [(len, VInt (Zpos p))] | _ => [] end.
+    else match attr_get len a with Some v => [(len, v)] | None => [] end.
   Definition len_text (isroot : bool) (a : attrs) : str :=
     if skip_len isroot then []
-    else match attr_get len a with Some (VInt (Zpos p)) => [58] ++ str_of_N (Npos p) | _ => [] end.
+    else match attr_get len a with
+         | Some v => match py_str v with Ret s => [58] ++ s | Raise _ => [] end
+         | None => []
+         end.
+  (* a length value v whose written form s is read back as v itself: truthy, written with str(),
+     the text is a plain token and int()/float() of it gives v again *)
+  Definition lit_ok (v : val) (s : str) : Prop :=
+    truthy v = true /\ py_str v = Ret s /\ s <> [] /\ has_special s = false /\ length_val s = Ret v.
   Definition attr_text (a : attrs) : str :=
     match kvs_of a with
     | [] => []
@@ -1389,7 +1396,8 @@ Section Full.
     /\ (nilb len = false -> key_ok len = true /\ existsb (str_eqb len) keys = false).
 
   Definition node_good (isroot : bool) (t : tree) : Prop :=
-    node_in_alphabet oF t = true /\ (skip_len isroot = false -> len_ok oF t = true).
+    node_in_alphabet oF t = true
+    /\ (skip_len isroot = false -> exists v s, attr_get len (tattrs t) = Some v /\ lit_ok v s).
 
   Inductive good : bool -> tree -> Prop :=
   | good_node isroot g n a ks :
@@ -1405,6 +1413,20 @@ Section Full.
     destruct z; try discriminate. intros _. eexists. reflexivity.
   Qed.
 
+  Lemma lit_ok_int p : lit_ok (VInt (Zpos p)) (str_of_N (Npos p)).
+  Proof.
+    repeat split.
+    - apply str_of_N_nonempty.
+    - unfold str_of_N. apply uint_digits_plain.
+    - apply length_val_pos.
+  Qed.
+
+  Lemma len_ok_lit t : len_ok oF t = true -> exists v s, attr_get len (tattrs t) = Some v /\ lit_ok v s.
+  Proof.
+    intros H. destruct (len_ok_inv t H) as [p Hp]. exists (VInt (Zpos p)), (str_of_N (Npos p)).
+    split; [exact Hp|apply lit_ok_int].
+  Qed.
+
   (* --- the writer --- *)
   Lemma name_str_good isroot leaf g n a ks :
     node_good isroot (T g n a ks) ->
@@ -1414,8 +1436,8 @@ Section Full.
     rewrite is_nil_nilb. destruct (nilb len) eqn:El; cbn [negb andb orb] in *.
     - rewrite app_nil_r. reflexivity.
     - destruct isroot; cbn [negb] in *; [rewrite app_nil_r; reflexivity|].
-      destruct (len_ok_inv _ (Hl eq_refl)) as [p Hp]. cbn [tattrs] in Hp.
-      rewrite lookup_attr_get, Hp. cbn [truthy Z.eqb negb py_str str_of_Z]. reflexivity.
+      destruct (Hl eq_refl) as (v & s & Hp & Htr & Hpy & _). cbn [tattrs] in Hp.
+      rewrite lookup_attr_get, Hp, Htr, Hpy. reflexivity.
   Qed.
 
   Lemma attr_items_good a : forall ks,
@@ -1597,8 +1619,8 @@ Section FullMachine.
         intros ->. cbn [app]. reflexivity.
     - (* length *)
       unfold skip_len in Esk. apply orb_false_iff in Esk as [Elen Eroot].
-      destruct (len_ok_inv inter len keys pf _ (Hl eq_refl)) as [p Hp].
-      cbn [tattrs] in Hp. rewrite Hp.
+      destruct (Hl eq_refl) as (v & s & Hp & _ & Hpy & Hdig & Hplain & Hlv).
+      cbn [tattrs] in Hp. rewrite Hp, Hpy.
       destruct (Hklen Elen) as [Hlk Hlnotin].
       destruct (key_ok_facts len Hlk) as (_ & _ & Hlres).
       pose proof (laF_len Elen) as Ela.
@@ -1606,18 +1628,16 @@ Section FullMachine.
                        = Ret (mkP [] (cu ++ [T None nm [] ab]) be d ctr' PStr true [] [] 0)).
       { intros rest'. unfold nw_step, St. cbn [N.eqb Pos.eqb orb andb].
         rewrite Hcreate. reflexivity. }
-      assert (Hdig : str_of_N (N.pos p) <> []) by apply str_of_N_nonempty.
       assert (Hsetlen : forall sel, (forall (f : tree -> tree) x, sel f (cu ++ [x]) = cu ++ [f x]) ->
-                 create_node sel la true (str_of_N (N.pos p)) ctr' [] (cu ++ [T None nm [] ab])
-                 = Ret (ctr', cu ++ [T None nm [(len, VInt (Z.pos p))] ab])).
-      { intros sel Hsel. unfold create_node. destruct (str_of_N (N.pos p)) as [|c0 r0] eqn:Ed; [contradiction|].
-        rewrite <- Ed. rewrite Ela, Hlres, length_val_pos. unfold attach. rewrite Hsel. reflexivity. }
+                 create_node sel la true (s) ctr' [] (cu ++ [T None nm [] ab])
+                 = Ret (ctr', cu ++ [T None nm [(len, v)] ab])).
+      { intros sel Hsel. unfold create_node. destruct s as [|c0 r0]; [contradiction|].
+        rewrite Ela, Hlres, Hlv. unfold attach. rewrite Hsel. reflexivity. }
       destruct (kvs_of keys a) as [|kv kvs] eqn:Ekv.
       + (* label:len *)
         cbn [app]. rewrite run_cons, Hcolon.
-        unfold str_of_N at 1.
-        rewrite (run_chars_cum la pf _ rest [] _ be d ctr' PStr true [] [] I (uint_digits_plain _)).
-        cbn [app]. fold (str_of_N (N.pos p)).
+        rewrite (run_chars_cum la pf s rest [] _ be d ctr' PStr true [] [] I Hplain).
+        cbn [app].
         eexists. split; [reflexivity|].
         unfold ready. cbn [p_state p_val p_skip p_below p_depth p_has p_cum p_ctr p_above p_cur kv_attrs map].
         repeat split.
@@ -1626,13 +1646,12 @@ Section FullMachine.
       + (* label:len[attrs] *)
         rewrite <- !app_assoc.
         cbn [app]. rewrite run_cons, Hcolon.
-        unfold str_of_N at 1.
-        rewrite (run_chars_cum la pf _ _ [] _ be d ctr' PStr true [] [] I (uint_digits_plain _)).
-        cbn [app]. fold (str_of_N (N.pos p)).
+        rewrite (run_chars_cum la pf s _ [] _ be d ctr' PStr true [] [] I Hplain).
+        cbn [app].
         cbn [nw_run p_skip].
         assert (Hstep : forall rest', nw_step la pf 91 (pf ++ rest')
-                                (mkP [] (cu ++ [T None nm [] ab]) be d ctr' PStr true (str_of_N (N.pos p)) [] 0)
-                        = Ret (mkP [] (cu ++ [T None nm [(len, VInt (Z.pos p))] ab]) be d ctr' PName true [] [] (length pf))).
+                                (mkP [] (cu ++ [T None nm [] ab]) be d ctr' PStr true (s) [] 0)
+                        = Ret (mkP [] (cu ++ [T None nm [(len, v)] ab]) be d ctr' PName true [] [] (length pf))).
         { intros rest'. unfold nw_step. cbn [N.eqb Pos.eqb orb andb]. rewrite startswith_app.
           rewrite (Hsetlen on_last (fun f x => on_last_app f cu x)). reflexivity. }
         rewrite Hstep. rewrite run_skip.
@@ -1640,7 +1659,7 @@ Section FullMachine.
         assert (Hne_kv : kvs_of keys a <> []) by (rewrite Ekv; discriminate).
         assert (Hnd : names_nodup ([len] ++ keys) = true).
         { cbn [app names_nodup]. rewrite Hlnotin, Hknd. reflexivity. }
-        pose proof (fresh_from (kvs_of keys a) [(len, VInt (Z.pos p))] (Hsub [len] Hnd)) as Hfr.
+        pose proof (fresh_from (kvs_of keys a) [(len, v)] (Hsub [len] Hnd)) as Hfr.
         cbn [app].
         rewrite (items_run la pf (kvs_of keys a) rest cu be d ctr' None nm _ ab Hne_kv Hkv Hfr).
         eexists. split; [reflexivity|].
@@ -2066,11 +2085,13 @@ Section ReaderFull.
   Definition shown_name (leaf : bool) (n : str) : str := if inter || leaf then n else [].
 
   Lemma rd_node_full isroot leaf g n a ks0 ks rest :
-    node_good inter len keys pf isroot (T g n a ks0) -> termb rest = true ->
+    node_good inter len keys pf isroot (T g n a ks0) ->
+    (skip_len len isroot = false -> len_ok (oF inter len keys pf) (T g n a ks0) = true) ->   (* integer lengths *)
+    termb rest = true ->
     rd_node la pf ks ((name_text inter leaf n ++ len_text len isroot a) ++ attr_text keys pf a ++ rest)
     = Some (T None (shown_name leaf n) (len_attr len isroot a ++ kv_attrs (kvs_of keys a)) ks, rest).
   Proof.
-    intros [Hn Hl] Ht.
+    intros [Hn _] Hl Ht.
     pose proof Hn as Hn'. unfold node_in_alphabet in Hn'. apply andb_true_iff in Hn' as [Hname Hvals].
     cbn [tname tattrs oF o_keys] in Hname, Hvals.
     destruct (name_ok_inv n Hname) as [Hne Hq].
@@ -2132,7 +2153,7 @@ Section ReaderFull.
       exact (Hattr []).
     - unfold skip_len in Esk. apply orb_false_iff in Esk as [Elen Eroot].
       destruct (len_ok_inv inter len keys pf _ (Hl eq_refl)) as [p Hp].
-      cbn [tattrs] in Hp. rewrite Hp.
+      cbn [tattrs] in Hp. rewrite Hp. cbn [py_str str_of_Z].
       pose proof (laF_len inter len keys pf Elen) as Ela. fold la in Ela.
       rewrite <- !app_assoc. cbn [app].
       rewrite (Hlabel (58 :: _) eq_refl). cbn [N.eqb Pos.eqb].
@@ -2159,6 +2180,12 @@ Section ReaderFullTree.
     | T _ n a ks => T None (shown_name inter (nilb ks) n) (len_attr len isroot a ++ kv_attrs (kvs_of keys a))
                       (map (sview false) ks)
     end.
+
+  (* the reference grammar of the spec reads digit strings as lengths: integer lengths everywhere *)
+  Inductive intlen : bool -> tree -> Prop :=
+  | intlen_node isroot g n a ks :
+      (skip_len len isroot = false -> len_ok (oF inter len keys pf) (T g n a ks) = true) ->
+      Forall (intlen false) ks -> intlen isroot (T g n a ks).
 
   Definition reads_full (isroot : bool) (t : tree) : Prop :=
     forall fuel rest, termb rest = true -> (length (text inter len keys pf isroot t) < fuel)%nat ->
@@ -2189,37 +2216,39 @@ Section ReaderFullTree.
       rewrite (IH ltac:(discriminate) Hks Ok_ks f rest ltac:(lia)). reflexivity.
   Qed.
 
-  Lemma reads_full_all t : forall isroot, good2 inter len keys pf isroot t -> reads_full isroot t.
+  Lemma reads_full_all t : forall isroot, good2 inter len keys pf isroot t -> intlen isroot t -> reads_full isroot t.
   Proof.
-    induction t as [g n a ks IH] using tree_ind'. intros isroot Hg.
+    induction t as [g n a ks IH] using tree_ind'. intros isroot Hg Hi.
     inversion Hg as [? ? ? ? ? Hnode Hdup Hna Hkids]; subst.
+    inversion Hi as [? ? ? ? ? Hint Hikids]; subst.
     pose proof Hnode as [Hn _]. unfold node_in_alphabet in Hn. apply andb_true_iff in Hn as [Hname _].
     cbn [tname] in Hname. destruct (name_ok_inv n Hname) as [Hne Hq].
     intros fuel rest Ht Hf. destruct fuel as [|f]; [lia|].
     destruct ks as [|k ks].
     - cbn [text sview map rd_tree nilb]. rewrite <- app_assoc.
       destruct ((name_text inter true n ++ len_text len isroot a) ++ attr_text keys pf a ++ rest) as [|c r] eqn:E.
-      + rewrite <- E. apply (rd_node_full inter len keys pf Hkeys isroot true g n a [] [] rest Hnode Ht).
+      + rewrite <- E. apply (rd_node_full inter len keys pf Hkeys isroot true g n a [] [] rest Hnode Hint Ht).
       + assert (Hc : N.eqb c 40 = false).
         { unfold name_text in E. rewrite orb_true_r in E. rewrite <- app_assoc in E.
           apply (ser_head n _ c r Hne Hq E). }
-        rewrite Hc. rewrite <- E. apply (rd_node_full inter len keys pf Hkeys isroot true g n a [] [] rest Hnode Ht).
+        rewrite Hc. rewrite <- E. apply (rd_node_full inter len keys pf Hkeys isroot true g n a [] [] rest Hnode Hint Ht).
     - assert (Hreads : Forall (reads_full false) (k :: ks)).
       { apply Forall_forall. intros x Hx. eapply Forall_forall in IH; eauto. apply IH.
-        eapply Forall_forall in Hkids; eauto. }
+        - eapply Forall_forall in Hkids; eauto.
+        - eapply Forall_forall in Hikids; eauto. }
       cbn [text sview nilb] in *. rewrite !app_length in Hf. cbn [length] in Hf.
       rewrite <- !app_assoc. cbn [app rd_tree N.eqb Pos.eqb].
       rewrite (forest_reads_full (k :: ks) ltac:(discriminate) Hreads Hkids f _ ltac:(lia)).
       rewrite app_assoc.
-      apply (rd_node_full inter len keys pf Hkeys isroot false g n a (k :: ks) _ rest Hnode Ht).
+      apply (rd_node_full inter len keys pf Hkeys isroot false g n a (k :: ks) _ rest Hnode Hint Ht).
   Qed.
 
   Theorem newick_read_full isroot t :
-    good2 inter len keys pf isroot t ->
+    good2 inter len keys pf isroot t -> intlen isroot t ->
     newick_read la pf (text inter len keys pf isroot t) = Some (sview isroot t).
   Proof.
-    intros Hg. unfold newick_read.
-    pose proof (reads_full_all t isroot Hg (S (length (text inter len keys pf isroot t))) [] eq_refl ltac:(lia)) as H.
+    intros Hg Hi. unfold newick_read.
+    pose proof (reads_full_all t isroot Hg Hi (S (length (text inter len keys pf isroot t))) [] eq_refl ltac:(lia)) as H.
     rewrite app_nil_r in H. rewrite H. reflexivity.
   Qed.
 End ReaderFullTree.
@@ -2242,9 +2271,8 @@ Section Glue.
     node_good inter len keys pf isroot (T g n a ks) ->
     view_attrs isroot a = len_attr len isroot a ++ kv_attrs (kvs_of keys a).
   Proof.
-    intros [Hn Hl]. unfold view_attrs. f_equal.
-    - unfold len_attr, skip_len in *. destruct (nilb len || isroot) eqn:E; [reflexivity|].
-      destruct (len_ok_inv inter len keys pf _ (Hl eq_refl)) as [p Hp]. cbn [tattrs] in Hp. rewrite Hp. reflexivity.
+    intros [Hn Hl]. unfold view_attrs.
+    apply f_equal2; [unfold len_attr, skip_len; destruct (nilb len || isroot); reflexivity|].
     - unfold node_in_alphabet in Hn. apply andb_true_iff in Hn as [_ Hv]. cbn [tattrs oF o_keys] in Hv.
       unfold kvs_of. clear - Hv. induction keys as [|k ks IH]; [reflexivity|].
       cbn [forallb] in Hv. apply andb_true_iff in Hv as [Hk Hks].
@@ -2312,14 +2340,15 @@ Section Glue.
   Qed.
 End Glue.
 
-(* from the boolean alphabet of the spec to the guards used in the proofs *)
-Lemma good2_of_alphabet inter len keys pf t : forall isroot,
+(* from the boolean alphabets of the spec to the guards used in the proofs *)
+Lemma good2_of_guard inter len keys pf (lenp : tree -> bool)
+      (Hlenp : forall x, lenp x = true -> exists v s, attr_get len (tattrs x) = Some v /\ lit_ok v s) t :
+  forall isroot,
   all_nodes (node_in_alphabet (oF inter len keys pf)) t = true ->
   (inter = false -> all_nodes (fun x => negb (auto_name (tname x))) t = true) ->
   sib_distinct t = true ->
   (nilb len = false ->
-     (isroot = false -> len_ok (oF inter len keys pf) t = true)
-     /\ forallb (all_nodes (len_ok (oF inter len keys pf))) (tkids t) = true) ->
+     (isroot = false -> lenp t = true) /\ forallb (all_nodes lenp) (tkids t) = true) ->
   good2 inter len keys pf isroot t.
 Proof.
   induction t as [g n a ks IH] using tree_ind'. intros isroot Hn Hauto Hsd Hlen.
@@ -2329,7 +2358,7 @@ Proof.
     eapply Forall_forall in Ha; eauto. }
   constructor.
   - split; [exact Hn1|]. unfold skip_len. intros E. apply orb_false_iff in E as [E1 E2].
-    apply (proj1 (Hlen E1) E2).
+    apply Hlenp. apply (proj1 (Hlen E1) E2).
   - exact Hd1.
   - apply Forall_forall. intros k Hk Ei. pose proof (Hauto_k k Hk Ei) as Ha.
     destruct k as [g' n' a' ks']. apply all_nodes_inv in Ha as [Ha _]. cbn [tname] in *.
@@ -2344,9 +2373,23 @@ Proof.
       cbn [all_nodes] in Hall. apply andb_true_iff in Hall as [A B]. split; [intros _; exact A|exact B].
 Qed.
 
+Lemma intlen_of inter len keys pf t : forall isroot,
+  (nilb len = false ->
+     (isroot = false -> len_ok (oF inter len keys pf) t = true)
+     /\ forallb (all_nodes (len_ok (oF inter len keys pf))) (tkids t) = true) ->
+  intlen inter len keys pf isroot t.
+Proof.
+  induction t as [g n a ks IH] using tree_ind'. intros isroot Hlen. constructor.
+  - unfold skip_len. intros E. apply orb_false_iff in E as [E1 E2]. apply (proj1 (Hlen E1) E2).
+  - apply Forall_forall. intros k Hk. eapply Forall_forall in IH; eauto. apply IH.
+    intros E. destruct (Hlen E) as [_ Hall]. cbn [tkids] in Hall.
+    eapply forallb_forall in Hall; eauto. destruct k as [g' n' a' ks'].
+    cbn [all_nodes] in Hall. apply andb_true_iff in Hall as [A B]. split; [intros _; exact A|exact B].
+Qed.
+
 Lemma alphabet_gen inter len keys pf isroot t :
   newick_alphabet (oF inter len keys pf) isroot t = true ->
-  keys_good len keys /\ good2 inter len keys pf isroot t.
+  keys_good len keys /\ good2 inter len keys pf isroot t /\ intlen inter len keys pf isroot t.
 Proof.
   unfold newick_alphabet. cbn [oF o_inter o_len o_keys o_seps_default]. intros H.
   apply andb_true_iff in H as [H Hseps]. apply andb_true_iff in H as [H Hlen].
@@ -2361,12 +2404,38 @@ Proof.
     apply andb_true_iff in Hlen as [Hlk Hnotin].
     split; [exact Hlk|]. split; [apply negb_true_iff; exact Hnotin|]. split; [|exact Hall].
     intros ->. cbn [orb] in Hroot. exact Hroot. }
-  split.
+  split; [|split].
   - split; [apply Forall_forall; intros k Hk; eapply forallb_forall in Hkok; eauto|].
     split; [exact Hknd|]. intros E. destruct (Hlen' E) as (A & B & _). split; assumption.
-  - apply good2_of_alphabet; [exact Hnodes| |exact Hsd|].
+  - apply (good2_of_guard inter len keys pf (len_ok (oF inter len keys pf)) (len_ok_lit inter len keys pf));
+      [exact Hnodes| |exact Hsd|].
     + intros ->. cbn [orb] in Hauto. exact Hauto.
     + intros E. destruct (Hlen' E) as (_ & _ & C & D). split; assumption.
+  - apply intlen_of. intros E. destruct (Hlen' E) as (_ & _ & C & D). split; assumption.
+Qed.
+
+Lemma good2_good inter len keys pf t : forall isroot, good2 inter len keys pf isroot t -> good inter len keys pf isroot t.
+Proof.
+  induction t as [g n a ks IH] using tree_ind'. intros isroot Hg.
+  inversion Hg as [? ? ? ? ? Hnode Hdup Hna Hkids]; subst. constructor; [exact Hnode|exact Hdup|].
+  apply Forall_forall. intros k Hk. eapply Forall_forall in IH; eauto. apply IH.
+  eapply Forall_forall in Hkids; eauto.
+Qed.
+
+Lemma newick_roundtrip_core inter len keys pf isroot t :
+  keys_good len keys -> good2 inter len keys pf isroot t ->
+  exists s back,
+    nw_write (cfgF inter len keys pf) isroot t = Ret s
+    /\ nw_parse (laF inter len keys pf) pf s = Ret back
+    /\ prop_newick_back (oF inter len keys pf) isroot t back = true.
+Proof.
+  intros Hk Hg.
+  destruct (nw_parse_full2 inter len keys pf Hk isroot t Hg) as (v & c' & R & P).
+  exists (text inter len keys pf isroot t), v.
+  split; [apply nw_write_full; apply good2_good; exact Hg|]. split; [exact P|].
+  unfold prop_newick_back. cbn [oF o_inter]. fold (oF inter len keys pf).
+  pose proof (rb_nz inter len keys pf isroot 0%nat t v c' R Hg) as E. unfold nz in E.
+  destruct inter; rewrite E; apply tree_eqb_refl.
 Qed.
 
 Theorem newick_roundtrip_gen inter len keys pf isroot t :
@@ -2376,17 +2445,8 @@ Theorem newick_roundtrip_gen inter len keys pf isroot t :
     /\ nw_parse (laF inter len keys pf) pf s = Ret back
     /\ prop_newick_back (oF inter len keys pf) isroot t back = true.
 Proof.
-  intros H. destruct (alphabet_gen inter len keys pf isroot t H) as [Hk Hg].
-  destruct (nw_parse_full2 inter len keys pf Hk isroot t Hg) as (v & c' & R & P).
-  exists (text inter len keys pf isroot t), v.
-  split; [apply nw_write_full|]. 2: split; [exact P|].
-  - clear - Hg. revert isroot Hg. induction t as [g n a ks IH] using tree_ind'. intros isroot Hg.
-    inversion Hg as [? ? ? ? ? Hnode Hdup Hna Hkids]; subst. constructor; [exact Hnode|exact Hdup|].
-    apply Forall_forall. intros k Hk. eapply Forall_forall in IH; eauto. apply IH.
-    eapply Forall_forall in Hkids; eauto.
-  - unfold prop_newick_back. cbn [oF o_inter]. fold (oF inter len keys pf).
-    pose proof (rb_nz inter len keys pf isroot 0%nat t v c' R Hg) as E. unfold nz in E.
-    destruct inter; rewrite E; apply tree_eqb_refl.
+  intros H. destruct (alphabet_gen inter len keys pf isroot t H) as (Hk & Hg & _).
+  apply newick_roundtrip_core; assumption.
 Qed.
 
 Theorem newick_export_gen inter len keys pf isroot t :
@@ -2394,15 +2454,99 @@ Theorem newick_export_gen inter len keys pf isroot t :
   exists s, nw_write (cfgF inter len keys pf) isroot t = Ret s
             /\ prop_newick_export (oF inter len keys pf) isroot t s = true.
 Proof.
-  intros H. destruct (alphabet_gen inter len keys pf isroot t H) as [Hk Hg].
+  intros H. destruct (alphabet_gen inter len keys pf isroot t H) as (Hk & Hg & Hi).
   exists (text inter len keys pf isroot t). split.
-  - apply nw_write_full.
-    clear - Hg. revert isroot Hg. induction t as [g n a ks IH] using tree_ind'. intros isroot Hg.
-    inversion Hg as [? ? ? ? ? Hnode Hdup Hna Hkids]; subst. constructor; [exact Hnode|exact Hdup|].
-    apply Forall_forall. intros k Hk. eapply Forall_forall in IH; eauto. apply IH.
-    eapply Forall_forall in Hkids; eauto.
+  - apply nw_write_full. apply good2_good. exact Hg.
   - unfold prop_newick_export. change (la_of (oF inter len keys pf)) with (laF inter len keys pf).
     cbn [oF o_prefix]. fold (oF inter len keys pf).
-    rewrite (newick_read_full inter len keys pf Hk isroot t Hg).
+    rewrite (newick_read_full inter len keys pf Hk isroot t Hg Hi).
     rewrite (sview_is_nw_view inter len keys pf t isroot Hg). apply tree_eqb_refl.
+Qed.
+
+(* ------------------------------------------------------------------------------------------ *)
+(* float lengths: every length literal the writer produces and the parser reads back as itself  *)
+
+Definition val_same (a b : val) : bool :=
+  match a, b with
+  | VNone, VNone => true
+  | VInt x, VInt y => Z.eqb x y
+  | VStr x, VStr y => str_eqb x y
+  | VBool x, VBool y => Bool.eqb x y
+  | VFloat a1 b1, VFloat a2 b2 => Z.eqb a1 a2 && Z.eqb b1 b2
+  | _, _ => false
+  end.
+
+Lemma val_same_eq a b : val_same a b = true -> a = b.
+Proof.
+  destruct a, b; cbn [val_same]; intros H; try discriminate; try reflexivity.
+  - apply Z.eqb_eq in H. subst. reflexivity.
+  - apply str_eqb_eq in H. subst. reflexivity.
+  - apply Bool.eqb_prop in H. subst. reflexivity.
+  - apply andb_true_iff in H as [H1 H2]. apply Z.eqb_eq in H1. apply Z.eqb_eq in H2. subst. reflexivity.
+Qed.
+
+(* decidable form of lit_ok: the value is truthy, str() of it is a non-empty token without special
+   characters, and int()/float() of that token is the value again (same fraction, same form) *)
+Definition lit_okb (v : val) : bool :=
+  truthy v &&
+  match py_str v with
+  | Ret s => negb (is_nil s) && negb (has_special s)
+             && match length_val s with Ret v' => val_same v' v | Raise _ => false end
+  | Raise _ => false
+  end.
+
+Lemma lit_okb_ok v : lit_okb v = true -> exists s, lit_ok v s.
+Proof.
+  unfold lit_okb. intros H. apply andb_true_iff in H as [Ht H].
+  destruct (py_str v) as [s|e] eqn:Epy; [|discriminate].
+  apply andb_true_iff in H as [H Hlv]. apply andb_true_iff in H as [Hne Hsp].
+  destruct (length_val s) as [v'|e] eqn:Elv; [|discriminate]. apply val_same_eq in Hlv. subst v'.
+  exists s. repeat split; try assumption.
+  - destruct s; [discriminate|discriminate].
+  - apply negb_true_iff. exact Hsp.
+Qed.
+
+Definition len_canon (len : str) (t : tree) : bool :=
+  match attr_get len (tattrs t) with Some v => lit_okb v | None => false end.
+
+(* every exported length (all nodes but the real root) is such a literal *)
+Definition lengths_canonical (len : str) (isroot : bool) (t : tree) : bool :=
+  nilb len || ((isroot || len_canon len t) && forallb (all_nodes (len_canon len)) (tkids t)).
+
+Lemma alphabet_ext_gen inter len keys pf isroot t :
+  newick_alphabet_ext (oF inter len keys pf) isroot t = true ->
+  lengths_canonical len isroot t = true ->
+  keys_good len keys /\ good2 inter len keys pf isroot t.
+Proof.
+  unfold newick_alphabet_ext. cbn [oF o_inter o_len o_keys o_seps_default]. intros H Hc.
+  apply andb_true_iff in H as [H Hseps]. apply andb_true_iff in H as [H Hlen].
+  apply andb_true_iff in H as [H Hknd]. apply andb_true_iff in H as [H Hkok].
+  apply andb_true_iff in H as [H Hsd]. apply andb_true_iff in H as [Hnodes Hauto].
+  assert (Hlen' : nilb len = false -> key_ok len = true /\ existsb (str_eqb len) keys = false).
+  { intros E. rewrite E in Hlen. cbn [orb] in Hlen.
+    apply andb_true_iff in Hlen as [Hlen _]. apply andb_true_iff in Hlen as [Hlen _].
+    apply andb_true_iff in Hlen as [Hlk Hnotin].
+    split; [exact Hlk|apply negb_true_iff; exact Hnotin]. }
+  split.
+  - split; [apply Forall_forall; intros k Hk; eapply forallb_forall in Hkok; eauto|].
+    split; [exact Hknd|exact Hlen'].
+  - apply (good2_of_guard inter len keys pf (len_canon len)); [|exact Hnodes| |exact Hsd|].
+    + intros x Hx. unfold len_canon in Hx. destruct (attr_get len (tattrs x)) as [v|] eqn:E; [|discriminate].
+      destruct (lit_okb_ok v Hx) as [s Hs]. exists v, s. split; [reflexivity|exact Hs].
+    + intros ->. cbn [orb] in Hauto. exact Hauto.
+    + intros E. unfold lengths_canonical in Hc. rewrite E in Hc. cbn [orb] in Hc.
+      apply andb_true_iff in Hc as [C D]. split; [|exact D].
+      intros ->. cbn [orb] in C. exact C.
+Qed.
+
+Theorem newick_roundtrip_ext inter len keys pf isroot t :
+  newick_alphabet_ext (oF inter len keys pf) isroot t = true ->
+  lengths_canonical len isroot t = true ->
+  exists s back,
+    nw_write (cfgF inter len keys pf) isroot t = Ret s
+    /\ nw_parse (laF inter len keys pf) pf s = Ret back
+    /\ prop_newick_back (oF inter len keys pf) isroot t back = true.
+Proof.
+  intros H Hc. destruct (alphabet_ext_gen inter len keys pf isroot t H Hc) as (Hk & Hg).
+  apply newick_roundtrip_core; assumption.
 Qed.
